@@ -161,6 +161,13 @@ def execute(sc):
           f"{sc['a']} vs {sc['b']}")
         return result(sc, viol, False, ma, mb)
     if not degenerate:
+        # cells are more than their centres: two DIFFERENT sets of cells whose centres happen to coincide (a one-node axis
+        # at x = 0.1 crossed with nodes 0.0 / 0.2, against the same exchanged) are not "the same data locations"; the
+        # centre sets cannot decide that case, so it is left out
+        ambiguous = same_set and not (comp and comp_r) and ma.loc == "cells" and mb.loc == "cells" and \
+            MGrid(sc["a"], loc="points").location_set() != MGrid(sc["b"], loc="points").location_set()
+        if ambiguous:
+            return result(sc, viol, False, ma, mb)
         if comp != same_set or comp_r != same_set:
             v("compat-relation", str(same_set), f"compatible_with gives {comp}/{comp_r} but the data location sets are "
               f"{'equal' if same_set else 'different'}: {sc['a']} vs {sc['b']}")
